@@ -552,7 +552,7 @@ class BasicContiguousVector<cntgs::Options<Option...>, Parameter...>
     template <class... TOption>
     constexpr auto equal(const cntgs::BasicContiguousVector<cntgs::Options<TOption...>, Parameter...>& other) const
     {
-        if constexpr (ListTraits::IS_EQUALITY_MEMCMPABLE)
+        if constexpr (ListTraits::IS_EQUALITY_MEMCMPABLE && ElementTraits::IS_PADDING_FREE)
         {
             if (empty())
             {
@@ -573,7 +573,8 @@ class BasicContiguousVector<cntgs::Options<Option...>, Parameter...>
     constexpr auto lexicographical_compare(
         const cntgs::BasicContiguousVector<cntgs::Options<TOption...>, Parameter...>& other) const
     {
-        if constexpr (ListTraits::IS_LEXICOGRAPHICAL_MEMCMPABLE && ListTraits::IS_FIXED_SIZE_OR_PLAIN)
+        if constexpr (ListTraits::IS_LEXICOGRAPHICAL_MEMCMPABLE && ListTraits::IS_FIXED_SIZE_OR_PLAIN &&
+                      ElementTraits::IS_PADDING_FREE)
         {
             if (empty())
             {
